@@ -48,8 +48,14 @@ class AnsiFormatter(Formatter):
         return formatted
 
     def remove_format(self, string):  # type: (str) -> str
-        with self._formatter.colorized(False):
+        colorized = self._formatter.is_colorized()
+        self._formatter.with_colors(False)
+
+        try:
             return self._formatter.colorize(string)
+        finally:
+            # Also when the string holds an invalid style
+            self._formatter.with_colors(colorized)
 
     def disable_ansi(self):  # type: () -> bool
         return False
